@@ -84,6 +84,12 @@ impl Filter {
         output: &'a mut [u8],
     ) -> Result<&'a Filter, Error> {
         let length = Self::output_size_needed(ids, authors, kinds, tags);
+        // The counts are stored as u16
+        for count in [ids.len(), authors.len(), kinds.len()] {
+            if count > u16::MAX as usize {
+                return Err(InnerError::OutOfRange(count).into());
+            }
+        }
         if output.len() < length {
             return Err(InnerError::BufferTooSmall(length).into());
         }
@@ -860,7 +866,7 @@ fn parse_json_filter(input: &[u8], output: &mut [u8]) -> Result<(usize, usize), 
 
     // Copy ids
     if let Some(mut inpos) = start_ids {
-        let mut num_ids: u16 = 0;
+        let mut num_ids: usize = 0;
         // `inpos` is right after the open bracket of the array
         loop {
             eat_whitespace_and_commas(input, &mut inpos);
@@ -873,12 +879,19 @@ fn parse_json_filter(input: &[u8], output: &mut [u8]) -> Result<(usize, usize), 
         }
 
         // Write num_ids
-        put(output, NUM_IDS_OFFSET, num_ids.to_ne_bytes().as_slice())?;
+        if num_ids > u16::MAX as usize {
+            return Err(InnerError::JsonBadFilter("Too many ids", inpos).into());
+        }
+        put(
+            output,
+            NUM_IDS_OFFSET,
+            (num_ids as u16).to_ne_bytes().as_slice(),
+        )?;
     }
 
     // Copy authors
     if let Some(mut inpos) = start_authors {
-        let mut num_authors: u16 = 0;
+        let mut num_authors: usize = 0;
         // `inpos` is right after the open bracket of the array
         loop {
             eat_whitespace_and_commas(input, &mut inpos);
@@ -891,16 +904,19 @@ fn parse_json_filter(input: &[u8], output: &mut [u8]) -> Result<(usize, usize), 
         }
 
         // write num_authors
+        if num_authors > u16::MAX as usize {
+            return Err(InnerError::JsonBadFilter("Too many authors", inpos).into());
+        }
         put(
             output,
             NUM_AUTHORS_OFFSET,
-            num_authors.to_ne_bytes().as_slice(),
+            (num_authors as u16).to_ne_bytes().as_slice(),
         )?;
     }
 
     // Copy kinds
     if let Some(mut inpos) = start_kinds {
-        let mut num_kinds: u16 = 0;
+        let mut num_kinds: usize = 0;
         // `inpos` is right after the open bracket of the array
         loop {
             eat_whitespace_and_commas(input, &mut inpos);
@@ -919,7 +935,14 @@ fn parse_json_filter(input: &[u8], output: &mut [u8]) -> Result<(usize, usize), 
         }
 
         // write num_kinds
-        put(output, NUM_KINDS_OFFSET, num_kinds.to_ne_bytes().as_slice())?;
+        if num_kinds > u16::MAX as usize {
+            return Err(InnerError::JsonBadFilter("Too many kinds", inpos).into());
+        }
+        put(
+            output,
+            NUM_KINDS_OFFSET,
+            (num_kinds as u16).to_ne_bytes().as_slice(),
+        )?;
     }
 
     // Copy tags
@@ -976,6 +999,10 @@ fn parse_json_filter(input: &[u8], output: &mut [u8]) -> Result<(usize, usize), 
                 // write len
                 put(output, end, (outlen as u16).to_ne_bytes().as_slice())?;
                 end += 2 + outlen;
+                // All lengths, counts and offsets of the tags are stored as u16
+                if end - write_tags_start > u16::MAX as usize {
+                    return Err(InnerError::JsonBadFilter("Tags are too long", inpos).into());
+                }
                 inpos += inlen + 1;
                 count += 1;
             }
